@@ -178,6 +178,10 @@ def center_image(IM, method='com', odd_size=True, square=False, axes=(0, 1),
                 if o < 0:
                     o = o + size  # (counted from the end)
                 o = o - trimmed
+                if o < 0 or o > IM.shape[a] - 1:
+                    raise ValueError('origin {} is in the part of the image '
+                                     'removed by the "odd_size"/"square" '
+                                     'trimming'.format(method))
             origin[a] = o
 
     centered_data = set_center(IM, origin=origin, crop=crop, axes=axes,
